@@ -13,8 +13,9 @@ N == Len(Trace)
 VARIABLES l, bad, mach
 vars == <<l, bad, mach>>
 
-ST == [x \in {"docker#v1", "my-org/thing#main", "ecr"} |->
+ST == [x \in {"docker#v1", "my-org/thing#main", "ecr", "my-org/deploy#v1.4.0%252Bbuild7"} |->
          CASE x = "docker#v1" -> "github.com/buildkite-plugins/docker-buildkite-plugin#v1"
+           [] x = "my-org/deploy#v1.4.0%252Bbuild7" -> "github.com/my-org/deploy-buildkite-plugin#v1.4.0%2Bbuild7"    \* (the ref of a short form is percent-decoded once)
            [] x = "my-org/thing#main" -> "github.com/my-org/thing-buildkite-plugin#main"
            [] x = "ecr" -> "github.com/buildkite-plugins/ecr-buildkite-plugin"]
 
